@@ -174,6 +174,8 @@ var assumptionText = map[string]string{
 	"A-HACK":        "A-HACK: the layout hacks of hack.go (rvWithPtr, rvPtr, rvTypePtr, rtTypePtr, updateIface, mapIter, maplen, sliceHeader.Zero) do what their comments say (frugal validates them at init); given assumed contracts",
 	"A-APPEND":      "A-APPEND: where the output buffer is treated as an abstract byte sequence, Go's append is sequence extension; its concrete reading (same array while the result fits the capacity, a fresh array otherwise; writes only into the spare capacity [ptr+len,ptr+cap) or fresh memory) is assumed at the boundary to concrete callers, and the spare capacity is assumed disjoint from the value being encoded",
 	"A-SIZE":        "A-SIZE: containers hold fewer than 2^31 elements (the count on the wire is the 32-bit truncation of the live length); a single in-memory element is at most 64 KiB",
+	"A-SDS":         "A-SDS: mapStructDesc.Get/Set (descmap.go) implement a map from abi type to descriptor (assumed abstract view $sds); atomic.Pointer Load/Store are sequentially consistent",
+	"A-INIT":        "A-INIT: package-level variables hold what their initialisers assign (non-nil maps, errors.New values) and are not reassigned",
 	"A-COMPOSE":     "A-COMPOSE: the step from per-function contracts to the whole-message statement is a structural induction over the descriptor tree written in DESIGN.md, not mechanised",
 	"A-WF":          "A-WF: descriptors handed to the codec satisfy wfT/wfSD/wfF as axiomatised in contracts_verif.go; the constructors (newTType, fromDefsFields, ...) are not yet proved to establish them",
 	"A-SOLVER":      "A-SOLVER: an 'unsat' answer of z3 5.1.0 / z3 4.8.12 / cvc5 1.0.3 is correct (recursive definitions are axiomatised, not define-fun-rec, after a spurious unsat was observed; every function's assumption set is checked not to be refutable on every run)",
@@ -340,7 +342,9 @@ func cmdProp(args []string) int {
 		}
 	}
 	if len(retry) > 0 && len(retry) <= 40 {
-		rr := DischargeAll(retry, timeout*3, all, 4)
+		ExtraSeeds = true
+		rr := DischargeAll(retry, timeout*3, all, 3)
+		ExtraSeeds = false
 		for k, r := range rr {
 			r.Tried = append(results[retryIdx[k]].Tried, append([]string{"retry:"}, r.Tried...)...)
 			results[retryIdx[k]] = r
